@@ -275,7 +275,7 @@ class Bunch:
 
 def prepare_dist(dist):
     if not isinstance(dist._sample_space, dit.samplespace.CartesianProduct):
-        dist = dit.expanded_samplespace(dist, union=True)
+        dist = dit.expanded_samplespace(dist, union=False)
     else:
         # Work on a copy: the caller's distribution must not be densified
         # or re-based as a side effect.
